@@ -662,7 +662,22 @@ def map_reset_pair(ctx):
                 after_merge = tv[0] == 'post' and tv[2] == 0 and is_call(tv[1], 'merge') and len(tv[1][2]) == 2 \
                     and elem_value_of(tv[1][2][1]) is not None and param_path(elem_value_of(tv[1][2][1])[0]) \
                     and param_path(elem_value_of(tv[1][2][1])[0])[0] == 2
-                if sides == {1, 2} and not after_merge:
+                # exact form: (their entry clock ⊔ our entry clock [⊔ replica clocks]) − (the recomputed witness): the joined
+                # clocks must be the unmodified ones (a clock trimmed in place beforehand no longer names what was deleted)
+                # and what is subtracted must be the very witness the entry keeps
+                witness = None
+                for _bb, _c in sorted(it.calls.items()):
+                    if is_call(_c.term, 'is_empty', self_adt='VClock') and _c.args and cexpr(_c.args[0].val)[0] in ('join', 'meet'):
+                        witness = cexpr(_c.args[0].val)
+                        break
+                pure = e[0] == 'minus' and (e[1][0] == 'leaf' or (e[1][0] == 'join' and all(x[0] == 'leaf' for x in e[1][1])))
+                if sides == {1, 2} and not pure:
+                    both_msg = 'the dots deleted from an entry present on both sides are computed as %s: the minuend must join the ' \
+                               'untrimmed entry clocks of both sides' % fmt_c(e)
+                elif sides == {1, 2} and (witness is None or e[2] != witness):
+                    both_msg = 'the dots deleted from an entry present on both sides are computed as %s: what is subtracted is not the ' \
+                               'recomputed witness %s the entry keeps' % (fmt_c(e), fmt_c(witness) if witness else '?')
+                elif sides == {1, 2} and not after_merge:
                     both_msg = 'the nested value of an entry present on both sides is reset before their value is merged into it: what the reset was meant to delete comes back with the merge'
                 elif sides == {1, 2}:
                     seen_b = True
